@@ -6,6 +6,7 @@ import (
 	"bytes"
 	"context"
 	"os"
+	"syscall"
 	"time"
 )
 
@@ -52,13 +53,16 @@ func (a *verifArchive) goodbye() {
 
 // verifSandbox: parent/{dest, sentinel, sib/inner}; returns parent and a checker that the
 // world outside dest is unchanged.
-func verifSandbox() (parent, dest string, check func()) {
+func verifSandbox(setup ...func(parent string)) (parent, dest string, check func()) {
 	parent = vTempDir()
 	dest = parent + "/dest"
 	os.Mkdir(dest, 0755)
 	os.WriteFile(parent+"/sentinel", []byte("S"), 0600)
 	os.Mkdir(parent+"/sib", 0700)
 	os.WriteFile(parent+"/sib/inner", []byte("I"), 0600)
+	for _, f := range setup {
+		f(parent)
+	}
 	outside := func() int {
 		// the whole (model / jailed) file system except what is beneath the destination
 		if all := vFSList("/"); all != nil {
@@ -211,5 +215,38 @@ func VerifC18_Sequences() {
 	if err == nil {
 		vCover("untar-succeeded")
 	}
+	check()
+}
+
+func (a *verifArchive) device(major, minor uint64) {
+	a.enc.Encode(FormatDevice{FormatHeader: FormatHeader{Size: 32, Type: CaFormatDevice}, Major: major, Minor: minor})
+}
+
+// VerifC18_DeviceOverSymlink: a symlink entry, then a device entry (names and link target
+// symbolic) while a device node of the very same kind and number exists outside the destination
+// (as /dev/null does on every system): whatever the names, the outside node keeps its mode,
+// owner and time - a device entry replaces what is at its name, it never adopts it through a link.
+func VerifC18_DeviceOverSymlink() {
+	parent, dest, check := verifSandbox(func(parent string) {
+		vAssert(syscall.Mknod(parent+"/b", syscall.S_IFCHR|0600, int(mkdev(1, 3))) == nil, "mknod of the outside node (needs privileges natively)")
+		os.Chtimes(parent+"/b", time.Unix(1000, 0), time.Unix(1000, 0))
+	})
+	outside := parent + "/b"
+	before, _ := os.Lstat(outside)
+	a := newVerifArchive()
+	a.entry(os.ModeDir | 0755)
+	a.filename(verifSymName("linkname", 1))
+	a.entry(os.ModeSymlink | 0777)
+	a.symlink(verifSymName("target", 4))
+	a.filename(verifSymName("devname", 1))
+	a.enc.Encode(FormatEntry{FormatHeader: FormatHeader{Size: 64, Type: CaFormatEntry}, FeatureFlags: TarFeatureFlags, Mode: os.ModeDevice | os.ModeCharDevice | 0666, UID: 7, GID: 7, MTime: time.Unix(0, 5)})
+	a.device(1, 3)
+	a.goodbye()
+	fs := NewLocalFS(dest, LocalFSOptions{})
+	err := UnTar(context.Background(), bytes.NewReader(a.buf.Bytes()), fs)
+	vCover("untar-returned")
+	_ = err
+	after, serr := os.Lstat(outside)
+	vAssert(serr == nil && after.Mode() == before.Mode() && after.ModTime().Equal(before.ModTime()), "a device node outside the destination had its mode or time changed")
 	check()
 }
